@@ -84,6 +84,8 @@ VTab ==
     ("protected-altered" :> [D EXCEPT !.sigok = FALSE]) @@
     ("payload-altered" :> [D EXCEPT !.sigok = FALSE]) @@
     ("sig-altered" :> [D EXCEPT !.sigok = FALSE]) @@
+    \* one used bit flipped at every character position of the segment (all positions in the thorough tier)
+    ("sweep-h" :> [D EXCEPT !.sigok = FALSE]) @@ ("sweep-p" :> [D EXCEPT !.sigok = FALSE]) @@ ("sweep-s" :> [D EXCEPT !.sigok = FALSE]) @@
     ("pad-h" :> [D EXCEPT !.enc = "h-pad"]) @@ ("pad-p" :> [D EXCEPT !.enc = "p-pad"]) @@ ("pad-s" :> [D EXCEPT !.enc = "s-pad"]) @@
     ("noncanon-h" :> [D EXCEPT !.enc = "h-noncanon"]) @@ ("noncanon-p" :> [D EXCEPT !.enc = "p-noncanon"]) @@
     ("noncanon-s" :> [D EXCEPT !.enc = "s-noncanon"]) @@ ("stdalpha-s" :> [D EXCEPT !.enc = "s-stdalpha"]) @@
@@ -95,7 +97,7 @@ Applicable(c, f, v) ==
     CASE v \in {"alg-sibling", "legit-alg-mismatch"} -> f # "ed25519"
       [] v = "kid-other-party" -> c \notin SelfKeyed
       [] v = "kid-attacker-resigned" -> c \notin SelfKeyed \cup {"apitoken"}   \* the attacker's key is not in authorized_keys
-      [] v \in {"pad-p", "noncanon-p"} -> c # "ldproof"                         \* detached payload
+      [] v \in {"pad-p", "noncanon-p", "sweep-p"} -> c # "ldproof"                         \* detached payload
       [] v \in {"pad-s", "noncanon-s"} -> f \notin {"p384", "p521"}             \* 96/132 signature bytes encode without remainder
       [] OTHER -> TRUE
 
